@@ -21,4 +21,5 @@ INVARIANT PwlWellFormed
 INVARIANT CostInRange
 INVARIANT PwlTranscriptionAgrees
 INVARIANT GridOptSane
+INVARIANT NoUnclassifiedDeviation
 INVARIANT GridSmall
